@@ -81,6 +81,9 @@ def _work(args):
         prms.setdefault('GROUPING_PRMS', {}).setdefault('height_scale_range', rng.choice([[500, 100], [400, 150]]))
     if rng.random() < 0.3:
         prms.setdefault('EXCLUDE_FOR_BASE_HEIGHT_CALC', ['zz', rows[0][0]])
+    if rng.random() < 0.5:
+        # leaves that do not change the processing belong to the per-call dictionary as well (the plotting style)
+        prms['MPL_STYLE'] = rng.choice(['latex', 'metsymb', 'base'])
     df = scenes.make_frame(rows)
     if rng.random() < 0.3:
         df.index = [rng.randrange(50) for _ in range(len(df))]
